@@ -191,7 +191,8 @@ def r17_3(ctx: Ctx):
     scr = scratch_attrs(ctx)
     ctx.floor(rid, 'scratch attributes of the evolvent', len(scr), 1)
     heavy = {n for n in ev.methods if 'CalculateNode' in n or 'CalculateNumbr' in n}
-    ex = ctx.explorer(inline=lambda f, st: f.cls is ev and f.name not in heavy, unroll=1, max_paths=30000)
+    ex = ctx.explorer(inline=lambda f, st: f.cls is ev and f.name not in heavy, unroll=1, max_paths=30000,
+                      opaque={ev.methods[n] for n in heavy})
     selfv = None
     # all definitions of each scratch attribute in the class
     defs: Dict[str, List] = {a: [] for a in scr}
